@@ -60,8 +60,7 @@ Definition succ (m : wir) (x : ent) : res (list ent) :=
               | Some e =>
                   Ok ((match el_items e with
                        | ELI_Funcs fs => map (fun f => (S_func, f)) fs
-                       | ELI_Exprs RT_Funcref es => flat_map const_refs es
-                       | ELI_Exprs RT_Externref _ => []                        (* only Funcref expression items are scanned *)
+                       | ELI_Exprs _ es => flat_map const_refs es
                        end) ++
                       (match el_kind e with
                        | ELK_Active t off => (match off with MC_Global g => [(S_global, g)] | _ => [] end) ++ [(S_table, t)]
